@@ -20,6 +20,7 @@ REFACTOR_PROPS = {
     "rename_local_GenerateHOTP": ["C01", "C07"], "reorder_defaulting_generateOTPURL": ["C16"], "switch_to_if_challengeLength": ["C14", "C05"],
     "hoist_digits_validateRFC4226": ["C03", "C04"], "invert_branch_padBytes": ["C05", "C12"], "change_error_text": ["C03", "C13"],
     "add_unrelated_init_closure": ["C01", "C02", "C11"],
+    "recovery_early_return": ["C19", "C18"],
 }
 
 
